@@ -112,7 +112,7 @@ func (vc *VC) havocAll(s *State) {
 	oldNext := vc.getNext(s)
 	keep := map[string]string{}
 	for k, v := range s.comp {
-		if strings.HasPrefix(strings.Trim(k, "|"), "armed$") || k == "Spawns" || k == "Held" {
+		if strings.HasPrefix(strings.Trim(k, "|"), "armed$") || k == "Spawns" || k == "Held" || k == "RType" || k == "Frozen" {
 			keep[k] = v
 		}
 	}
@@ -281,6 +281,8 @@ func (vc *VC) fieldHeap(st types.Type, i int) string {
 			kind = "ref"
 		case *types.Slice:
 			kind = "slice"
+		case *types.Interface:
+			kind = "any"
 		}
 		r.fmeta[name] = fieldMeta{vc.structTID(st), kind}
 	}
